@@ -158,9 +158,13 @@ def analyse(facts, tier):
                         why='call-site range %s' % v if ok else 'call sites can deliver %s, outside 0..127' % v))
 
     # ---- R2 zero silences
-    models = model_values(tn)
-    if len(models) < 5:
-        raise build.AnalysisBroken('C11: only %d volume models found in the switch' % len(models))
+    # the volume models are the enumerators of the type of OPN2::m_volumeScale (how touchNote dispatches on them - a switch, an
+    # if / else-if chain - is the interval engine's business: each model is analysed with the member fixed to its value)
+    labels = model_values(tn)
+    enum_models = facts.enum_names.get('OPN2::VolumesScale') or {}
+    if len(enum_models) < 5:
+        raise build.AnalysisBroken('C11: only %d volume models found in enum OPN2::VolumesScale' % len(enum_models))
+    models = {v: labels.get(v, tn.d['line']) for v in enum_models.values()}
     for zero in ('channelVolume', 'channelExpression', 'm_masterVolume'):
         fr = dict(res['field_ranges'])
         pr2 = dict(pr)
@@ -282,12 +286,13 @@ def analyse(facts, tier):
                     why='8 algorithms x 4 operators agree' if ok else 'algorithm(s) %s mark the wrong operators as carriers: %s' % (bad, [rows[i] for i in bad])))
     # do_op = alg_do[alg][op] || m_scaleModulators ; alg = fbalg & 7
     okd = oka = False
+    al_tn = alias_defs(tn.d)
     for b_, j_, st_ in tn.cfg.stmts():
         s = st_['s']
         if s.get('k') == 'DeclStmt':
             for v in s['decls']:
                 if v['id'] in SCALE_IDS and 'init' in v:
-                    i = strip(v['init'])
+                    i = strip(canon_access(v['init'], al_tn))      # `row = T[alg]; *(row + op)` reads as T[alg][op]
                     # <carrier table>[algorithm][operator] || m_scaleModulators: the left operand is a doubly subscripted local table
                     l_ = strip(i['l'])
                     okd = i.get('k') == 'BinaryOperator' and i['op'] == '||' and l_.get('k') == 'ArraySubscriptExpr' and strip(l_.get('b')).get('k') == 'ArraySubscriptExpr' and \
